@@ -516,7 +516,8 @@ namespace xsimd
     template <class T, class = typename std::enable_if<std::is_scalar<T>::value>::type>
     XSIMD_INLINE bool is_even(const T& x) noexcept
     {
-        return is_flint(x * T(0.5));
+        // x * 0.5 underflows to zero for the smallest denormal, which is not an integer
+        return is_flint(x) && is_flint(x * T(0.5));
     }
 
     template <class T, class = typename std::enable_if<std::is_scalar<T>::value>::type>
